@@ -113,14 +113,14 @@ func ibWrite(rows []stRow, finals []stEff, endZ int) []byte {
 	positions := func() {
 		w("Open Positions", "Header", "DataDiscriminator", "Asset Category", "Currency", "Symbol", "Quantity", "Mult", "Cost Price", "Cost Basis", "Close Price", "Value", "Unrealized P/L", "Unrealized P/L %", "Code")
 		for _, f := range finals {
-			if !isCurrency(f.C) && f.V != 0 {
-				w("Open Positions", "Data", "Summary", "Stocks", "USD", f.C, fmt.Sprint(f.V/100), "1", "100.00", "100.00", "100.00", "100.00", "100.00", "100.00", "")
+			if !isCurrency(f.C) && f.F4 != 0 {
+				w("Open Positions", "Data", "Summary", "Stocks", "USD", f.C, dec4(f.F4), "1", "100.00", "100.00", "100.00", "100.00", "100.00", "100.00", "")
 			}
 		}
 		w("Open Positions", "Total", "", "Stocks", "USD", "", "", "", "", "100.00", "", "100.00", "100.00", "", "")
 		w("Forex Balances", "Header", "Asset Category", "Currency", "Description", "Quantity", "Cost Price", "Cost Basis in CHF", "Close Price", "Value in CHF", "Unrealized P/L in CHF", "Code")
 		for _, f := range finals {
-			if isCurrency(f.C) && f.V != 0 {
+			if isCurrency(f.C) && f.F4 != 0 {
 				// the export carries more decimals than the ledger; the importer rounds to cents
 				w("Forex Balances", "Data", "Forex", "CHF", f.C, strings.ReplaceAll(apos(f.V), "'", "")+"0033", "1", "-"+amt2(f.V), "1", amt2(f.V), "0", "")
 			}
@@ -133,7 +133,11 @@ func ibWrite(rows []stRow, finals []stEff, endZ int) []byte {
 		case "trade":
 			q := r.Extra[0].V / 100
 			price := abs(r.Amt) * 100 / abs(q) / 100
-			w("Trades", "Data", "Order", "Stocks", r.Cur, r.Extra[0].C, d+fmt.Sprintf(", %02d:%02d:49", (k*7+r.Z)%24, k%60), commas(q * 100)[:len(commas(q*100))-3], amt2(price), amt2(price), commas(r.Amt), amt2(-r.Fee), "0", "0", "40.425", "O", "")
+			qs := commas(q * 100)[:len(commas(q*100))-3] // whole shares, with thousands separators
+			if r.Extra[0].F4 != 0 {
+				qs = dec4(r.Extra[0].F4) // fractional shares
+			}
+			w("Trades", "Data", "Order", "Stocks", r.Cur, r.Extra[0].C, d+fmt.Sprintf(", %02d:%02d:49", (k*7+r.Z)%24, k%60), qs, amt2(price), amt2(price), commas(r.Amt), amt2(-r.Fee), "0", "0", "40.425", "O", "")
 		case "forex":
 			o := r.Extra[0]
 			fee := 0
@@ -214,4 +218,14 @@ var brokerImporters = []importerSpec{
 	{Name: "com.wise", Args: []string{"--account", "Assets:Broker", "--fee", "Expenses:Fees", "--trading", "Expenses:Trading"}, Account: "Assets:Broker", Multi: true, Fee: true, Write: wiseWrite,
 		Kinds: []string{"pay", "pay", "convert"}},
 	{Name: "ch.viac", Args: []string{"--commodity", "Viac"}, Prices: viacWrite},
+}
+
+// dec4 renders a scale-10^4 quantity without trailing zeros.
+func dec4(v int) string {
+	sign := ""
+	if v < 0 {
+		sign, v = "-", -v
+	}
+	s := fmt.Sprintf("%d.%04d", v/10000, v%10000)
+	return sign + strings.TrimRight(strings.TrimRight(s, "0"), ".")
 }
